@@ -111,7 +111,9 @@ pub fn peephole_compile<'a>(
   let mut label_offsets: collections::Vec<usize> = bumpalo::vec![in alloc; 0; label_count];
 
   if label_count > u16::MAX as usize {
-    todo!("Really handle this");
+    let mut errors = collections::Vec::new_in(alloc);
+    errors.push(Diagnostic::error().with_message("Too many jump targets in one function."));
+    return Err(errors);
   }
 
   compute_label_offsets(&instructions, &mut label_offsets[..label_count]);
